@@ -255,7 +255,11 @@ impl FixedMethod {
             return;
         }
 
-        if let Some(character) = value.chars().next() {
+        let mut value_chars = value.chars();
+        if let Some(character) = value_chars.next() {
+            // The characters of the value which follow its first one, they are kept after it.
+            let rest = value_chars.as_str();
+
             // Kar insertion
             if character.is_kar() {
                 // Old style Kar ordering
@@ -384,12 +388,14 @@ impl FixedMethod {
                 } else {
                     self.buffer.push(character);
                 }
+                self.buffer.push_str(rest);
                 return;
             }
 
             // Hasanta
             if character == B_HASANTA && rmc == B_HASANTA {
                 self.buffer.push(ZWNJ);
+                self.buffer.push_str(rest);
                 return;
             }
 
@@ -397,6 +403,7 @@ impl FixedMethod {
             if character == B_LENGTH_MARK && rmc == B_HASANTA {
                 self.buffer.pop();
                 self.buffer.push(B_OU);
+                self.buffer.push_str(rest);
                 return;
             }
 
